@@ -31,7 +31,13 @@ fn main() {
         "replay" if args.len() >= 4 => {
             let spec = props::find(&args[2]).unwrap_or_else(|| usage());
             let tier = args.get(4).and_then(|t| Tier::parse(t)).unwrap_or(Tier::Quick);
-            run::replay(spec, tier, Path::new(&args[3]))
+            let path = args[3].clone();
+            std::thread::Builder::new()
+                .stack_size(1 << 28)
+                .spawn(move || run::replay(spec, tier, Path::new(&path)))
+                .expect("spawn")
+                .join()
+                .unwrap_or(2)
         }
         "worker" if args.len() >= 9 => {
             let spec = props::find(&args[2]).unwrap_or_else(|| usage());
